@@ -135,6 +135,12 @@ def eval_twin_route(prop, cfg, ops, opts=None):
     n = min(len(wa.results), len(wb.results))
     for i in range(n):
         op = ops[i]
+        if op["op"] in ("index_valid", "reindex", "iter_suspend",
+                        "iter_resume", "clock"):
+            # whether the index happens to be valid is not a result: the
+            # handle's all()/iteration/len never trigger the automatic
+            # reindex while their database-level counterparts do
+            continue
         if op.get("via") != "h":
             if wa.results[i] != wb.results[i]:
                 # a db-level operation answers differently: an earlier
